@@ -1,4 +1,5 @@
-import RichModel.Lemmas.LiveInv
+import RichModel.Lemmas.LiveStep
+import RichModel.Lemmas.LiveCtl
 /-!
 The final `stop` of a well-formed history: last refresh (rendered `visible`), line feed, cursor shown,
 and — for a transient display — the frame erased again.
@@ -78,92 +79,119 @@ theorem dropFlush_clean (cfg : Cfg) (fails : Nat → Bool) (st : St) (h1 : st.bu
 theorem finOut_nil (cfg : Cfg) (ha : cfg.ansi = true) : finOut cfg [] = [.showCursor] := by
   unfold finOut showOp; cases cfg.kind <;> simp [ha]
 
-/-- `doStop` when nothing fails, the display is started and no text is pending in the proxies. -/
-theorem doStop_started (cfg : Cfg) (hc : cfg.plain = true) (st : St) (hst : st.started = true) (hh : st.hooks > 0)
-    (hbo : st.bufOut = []) (hbe : st.bufErr = []) :
-    ∃ st1 : St, st1.shape = st.shape ∧ st1.hooks = st.hooks ∧ st1.started = false ∧
-      HookedRes cfg st1 [] (doRefresh cfg noFault st1) ∧
-      stopFrame cfg st = shown cfg (doRefresh cfg noFault st1).st ∧
-      doStop cfg noFault st =
-        { st := resetSt cfg (cleanup (doRefresh cfg noFault st1).st),
-          out := (doRefresh cfg noFault st1).out ++ [.lf, .showCursor] ++
-            (if cfg.transient then restoreCursor cfg.blankFix (cleanup (doRefresh cfg noFault st1).st).shape else []) } := by
-  have hh1 : (stopSt cfg st).hooks > 0 := by rw [stopSt_hooks]; exact hh
-  have hres := (doRefresh_noFault cfg hc (stopSt cfg st)).1 hh1
-  refine ⟨stopSt cfg st, stopSt_shape cfg st, stopSt_hooks cfg st, stopSt_started cfg st, hres, rfl, ?_⟩
-  have hb := doRefresh_bufs cfg noFault (stopSt cfg st)
-  have hso : (stopSt cfg st).bufOut = [] := by unfold stopSt; cases cfg.kind <;> exact hbo
-  have hse : (stopSt cfg st).bufErr = [] := by unfold stopSt; cases cfg.kind <;> exact hbe
-  -- both variants of `stop` reduce to the tail after the last refresh
-  have key : doStop cfg noFault st = stopTail cfg noFault (doRefresh cfg noFault (stopSt cfg st)) := by
-    by_cases hf : cfg.flushFix = true
-    · have e1 : flushLive cfg noFault { st with started := false } false = { st := { st with started := false } } :=
-        flushLive_clean _ _ _ _ (by simpa [getBuf] using hbo)
-      have e2 : flushLive cfg noFault { st with started := false } true = { st := { st with started := false } } :=
-        flushLive_clean _ _ _ _ (by simpa [getBuf] using hbe)
-      simp only [doStop, hst, hf, Bool.not_true, Bool.false_eq_true, if_false, if_true, e1, e2, stopSt_idem]
-      simp
-    · have hf' : cfg.flushFix = false := by simpa using hf
-      simp [doStop, hst, hf']
-  rw [key]
-  simp only [stopTail, hres.err]
-  rw [dropFlush_clean cfg noFault _ (by rw [hb.1, hso]) (by rw [hb.2, hse])]
-  simp [finOut_nil cfg (plain_ansi hc), plain_terminal hc, plain_ansi hc]
-
 theorem disableRedirect_started (st : St) : (disableRedirect st).started = st.started := by
   obtain ⟨_, _, _, _, _, _, _, _, rso, rse, _, _, _, _, _, _⟩ := st
   cases rso <;> cases rse <;> rfl
+
+theorem disableRedirect_bufs (st : St) : (disableRedirect st).bufOut = st.bufOut ∧ (disableRedirect st).bufErr = st.bufErr := by
+  obtain ⟨_, _, _, _, _, _, _, _, rso, rse, _, _, _, _, _, _⟩ := st
+  cases rso <;> cases rse <;> exact ⟨rfl, rfl⟩
 
 theorem atBlank_of_eq {s s' : Screen} {P : List Line} {m : Nat} (h : AtBlank s P m)
     (h1 : s'.rows = s.rows) (h2 : s'.row = s.row) (h3 : s'.col = 0) : AtBlank s' P m :=
   ⟨by rw [h1]; exact h.rows, by rw [h2]; exact h.row, h3, h.pos⟩
 
-/-- Where an effective `stop` lands: on a blank zone right below the finished output (printed lines plus
-what the display leaves, `leftBy`), all of it within the screen, cursor visible. -/
-theorem stop_landing {cfg : Cfg} {st : St} {v : View} {s : Screen} (hc : cfg.plain = true) (hH : 1 ≤ cfg.height) (g : Good cfg st v s)
-    (hst : st.started = true) (hbo : st.bufOut = []) (hbe : st.bufErr = [])
-    (hfit : cfg.transient = true → restoreCount cfg.blankFix (stopFrame cfg st).length + 1 ≤ cfg.height) :
-    ∃ s' m, Run cfg.height v.printed.length s (doStop cfg noFault st).out s' ∧
-      AtBlank s' ((v.printed ++ leftBy cfg (stopFrame cfg st)).map (cells cfg.cw)) m ∧ m ≤ cfg.height ∧ s'.visible = true ∧
-      (doStop cfg noFault st).st.started = false ∧ (doStop cfg noFault st).st.hooks = 0 ∧
-      (cfg.resetShape = true → (doStop cfg noFault st).st.shape = none) := by
-  have hh : st.hooks > 0 := by have := g.hooks; rw [hst] at this; simp at this; omega
-  have hh1' : st.hooks = 1 := by have := g.hooks; rw [hst] at this; simpa using this
-  obtain ⟨st1, hs1, hh1, hst1, hres, eframe, estop⟩ := doStop_started cfg hc st hst hh hbo hbe
-  rw [estop]
-  rw [eframe] at hfit ⊢
-  simp only [cleanup_shape]
-  -- control fields of the final state
-  have hfin : (resetSt cfg (cleanup (doRefresh cfg noFault st1).st)).hooks = 0 ∧
-      (cfg.resetShape = true → (resetSt cfg (cleanup (doRefresh cfg noFault st1).st)).shape = none) := by
-    constructor
-    · have : (cleanup (doRefresh cfg noFault st1).st).hooks = 0 := by
-        show (doRefresh cfg noFault st1).st.hooks - 1 = 0
-        rw [hres.hooks, hh1, hh1']
-      unfold resetSt; split <;> exact this
-    · intro hr; unfold resetSt; simp [hr]
-  have hfinS : (resetSt cfg (cleanup (doRefresh cfg noFault st1).st)).started = false := by
-    have hc : (cleanup (doRefresh cfg noFault st1).st).started = (doRefresh cfg noFault st1).st.started := by
-      show (disableRedirect (doRefresh cfg noFault st1).st).started = _
-      exact disableRedirect_started _
-    have hs : (resetSt cfg (cleanup (doRefresh cfg noFault st1).st)).started = (cleanup (doRefresh cfg noFault st1).st).started := by
-      unfold resetSt; split <;> rfl
-    rw [hs, hc, hres.started, hst1]
-  generalize hr : doRefresh cfg noFault st1 = r at hres hfit hfin hfinS ⊢
-  obtain ⟨s1, k1, hrun1, hs1', hk1, hv1⟩ := hooked_screen (P := v.printed) (F := v.frame) g.shown (by rw [hs1]; exact g.shape) hres
+/-- What is on the screen and what shape is recorded — the part of `Good` that `stop` keeps true while
+`started` is already false. -/
+def SS (cfg : Cfg) (P : List Line) (F : Frame) (shape : Option (Nat × Nat)) (s : Screen) : Prop :=
+  (∃ k, Shown s (P.map (cells cfg.cw)) (F.map (cells cfg.cw)) k ∧ (region F).length + k ≤ cfg.height) ∧
+    ShapeOk shape F
+
+theorem ss_hooked {cfg : Cfg} {st : St} {P : List Line} {F : Frame} {s : Screen} {U : List Line} {r : Res}
+    (h : SS cfg P F st.shape s) (hr : HookedRes cfg st U r)
+    (hfit : (shown cfg r.st).length ≤ cfg.height) (hH : 1 ≤ cfg.height) :
+    ∃ s', Run cfg.height P.length s r.out s' ∧ SS cfg (P ++ U) (shown cfg r.st) r.st.shape s' ∧
+      s'.visible = s.visible := by
+  obtain ⟨s', k', hrun, hs', hk', hv⟩ := hooked_screen h.1 h.2 hr
+  refine ⟨s', hrun, ⟨⟨k', hs', ?_⟩, hr.shape⟩, hv⟩
+  have := region_length (shown cfg r.st); omega
+
+/-- No text is pending in a stream that is not redirected. -/
+def BufOk (st : St) : Prop := ∀ e, proxied st e = false → getBuf st e = []
+
+theorem getBuf_setBuf_same (st : St) (e : Bool) (b : Line) : getBuf (setBuf st e b) e = b := by
+  cases e <;> rfl
+
+theorem getBuf_setBuf_other (st : St) (e : Bool) (b : Line) : getBuf (setBuf st e b) (!e) = getBuf st (!e) := by
+  cases e <;> rfl
+
+theorem proxied_setBuf (st : St) (e e' : Bool) (b : Line) : proxied (setBuf st e b) e' = proxied st e' := by
+  cases e <;> rfl
+
+theorem proxied_of_ctlEq {a b : St} (h : CtlEq a b) (e : Bool) : proxied a e = proxied b e := by
+  obtain ⟨_, _, h3, h4, _, _⟩ := h
+  cases e <;> simp [proxied, h3, h4]
+
+theorem getBuf_of_bufs {a b : St} (h : a.bufOut = b.bufOut ∧ a.bufErr = b.bufErr) (e : Bool) : getBuf a e = getBuf b e := by
+  cases e <;> simp [getBuf, h.1, h.2]
+
+/-- One flush of the repaired `stop`: pending text of stream `e` is printed like any other line, above the
+display; nothing happens when nothing is pending. -/
+theorem ss_flush {cfg : Cfg} (hc : cfg.plain = true) (hH : 1 ≤ cfg.height) (st : St) (e : Bool) (hh : st.hooks > 0)
+    (hb : proxied st e = false → getBuf st e = []) {P : List Line} {F : Frame} {s : Screen}
+    (h : SS cfg P F st.shape s)
+    (hfit : (pend st e).isEmpty = false → (shown cfg (flushLive cfg noFault st e).st).length ≤ cfg.height) :
+    (flushLive cfg noFault st e).err = none ∧ (flushLive cfg noFault st e).st.hooks = st.hooks ∧
+      (flushLive cfg noFault st e).st.started = st.started ∧ getBuf (flushLive cfg noFault st e).st e = [] ∧
+      getBuf (flushLive cfg noFault st e).st (!e) = getBuf st (!e) ∧
+      (∀ e', proxied (flushLive cfg noFault st e).st e' = proxied st e') ∧
+      ∃ s' F', Run cfg.height P.length s (flushLive cfg noFault st e).out s' ∧
+        SS cfg (P ++ pend st e) F' (flushLive cfg noFault st e).st.shape s' ∧ s'.visible = s.visible := by
+  by_cases hp : (proxied st e && !(getBuf st e).isEmpty) = true
+  · have hres := hooked_noFault cfg st [getBuf st e]
+    have hctl := (hooked_ctl cfg noFault st [getBuf st e]).1
+    have hbufs := hooked_bufs cfg noFault st [getBuf st e]
+    have efl : flushLive cfg noFault st e =
+        { hooked cfg noFault st [getBuf st e] with st := setBuf (hooked cfg noFault st [getBuf st e]).st e [] } := by
+      simp only [flushLive, hp, if_true, doPrint_plain hc, hh]
+      rw [hres.err]
+    have hpend : pend st e = [getBuf st e] := by simp [pend, hp]
+    have hshown : shown cfg (setBuf (hooked cfg noFault st [getBuf st e]).st e []) = shown cfg (hooked cfg noFault st [getBuf st e]).st := by
+      cases e <;> exact shown_congr cfg rfl rfl rfl
+    rw [efl] at hfit ⊢
+    simp only at hfit ⊢
+    rw [hshown] at hfit
+    obtain ⟨s', hrun, hss, hv⟩ := ss_hooked h hres (hfit (by simp [hpend])) hH
+    refine ⟨hres.err, ?_, ?_, getBuf_setBuf_same _ _ _, ?_, ?_, s', shown cfg (hooked cfg noFault st [getBuf st e]).st, hrun, ?_, hv⟩
+    · cases e <;> exact hres.hooks
+    · cases e <;> exact hres.started
+    · rw [getBuf_setBuf_other]; exact getBuf_of_bufs hbufs _
+    · intro e'; rw [proxied_setBuf]; exact proxied_of_ctlEq hctl e'
+    · rw [hpend]
+      have : (setBuf (hooked cfg noFault st [getBuf st e]).st e []).shape = (hooked cfg noFault st [getBuf st e]).st.shape := by
+        cases e <;> rfl
+      rw [this]; exact hss
+  · have efl : flushLive cfg noFault st e = { st := st } := by simp [flushLive, hp]
+    have hpend : pend st e = [] := by simp [pend, hp]
+    rw [efl]
+    refine ⟨rfl, rfl, rfl, ?_, rfl, fun _ => rfl, s, F, Run.nil _ _ _, by simpa [hpend] using h, rfl⟩
+    cases hpr : proxied st e with
+    | false => exact hb hpr
+    | true => simpa [hpr] using hp
+
+/-- From the last refresh of `stop` on: line feed, cursor shown, and for a transient display the frame
+erased — landing on a blank zone below what is finished. -/
+theorem stop_tail_landing {cfg : Cfg} (hH : 1 ≤ cfg.height) {x : St} {r : Res} {P : List Line} {F : Frame} {s : Screen}
+    (hss : SS cfg P F x.shape s) (hres : HookedRes cfg x [] r)
+    (hfit : cfg.transient = true → restoreCount cfg.blankFix (shown cfg r.st).length + 1 ≤ cfg.height) :
+    ∃ s' m, Run cfg.height P.length s
+        (r.out ++ [TermOp.lf, TermOp.showCursor] ++
+          if cfg.transient = true then restoreCursor cfg.blankFix r.st.shape else []) s' ∧
+      AtBlank s' ((P ++ leftBy cfg (shown cfg r.st)).map (cells cfg.cw)) m ∧ m ≤ cfg.height ∧ s'.visible = true := by
+  obtain ⟨s1, k1, hrun1, hs1', hk1, hv1⟩ := hooked_screen (P := P) (F := F) hss.1 hss.2 hres
   simp only [List.append_nil] at hs1'
   -- everything below is about the rows of cells on the screen
   have hcnil : cells cfg.cw [] = [] := rfl
   have hregion : ∀ F : Frame, (region F).map (cells cfg.cw) = region (F.map (cells cfg.cw)) := by
     intro F; cases F <;> simp [region, hcnil]
-  generalize hPc : v.printed.map (cells cfg.cw) = Pc at hs1'
-  have hPlen : Pc.length = v.printed.length := by rw [← hPc, List.length_map]
+  generalize hPc : P.map (cells cfg.cw) = Pc at hs1'
+  have hPlen : Pc.length = P.length := by rw [← hPc, List.length_map]
   generalize hFc : (shown cfg r.st).map (cells cfg.cw) = Fc at hs1'
   have hFlen : Fc.length = (shown cfg r.st).length := by rw [← hFc, List.length_map]
   have hrlen : (region Fc).length = (region (shown cfg r.st)).length := by rw [← hFc, region_map_length]
   rw [← hrlen] at hk1
   rw [← hFlen] at hfit
-  have hrow1 : v.printed.length ≤ s1.row := by have := shown_row_ge hs1'; omega
+  have hrow1 : P.length ≤ s1.row := by have := shown_row_ge hs1'; omega
   obtain ⟨s2, hs2⟩ : ∃ s2, s2 = Screen.step cfg.height s1 .lf := ⟨_, rfl⟩
   have hb2 : AtBlank s2 (Pc ++ region Fc) (max k1 1) := by
     rw [hs2]; exact shown_lf (H := cfg.height) hs1'
@@ -171,7 +199,7 @@ theorem stop_landing {cfg : Cfg} {st : St} {v : View} {s : Screen} (hc : cfg.pla
   have hb3 : AtBlank s3 (Pc ++ region Fc) (max k1 1) :=
     atBlank_of_eq hb2 (by rw [hs3]; rfl) (by rw [hs3]; rfl) (by rw [hs3]; exact hb2.col)
   have hvis3 : s3.visible = true := by rw [hs3]; rfl
-  have hrun2 : Run cfg.height v.printed.length s (r.out ++ [.lf, .showCursor]) s3 := by
+  have hrun2 : Run cfg.height P.length s (r.out ++ [.lf, .showCursor]) s3 := by
     rw [hs3, hs2]
     refine Run.append hrun1 (Run.cons ?_ (Run.one ?_))
     · simp [Screen.step]; omega
@@ -179,14 +207,14 @@ theorem stop_landing {cfg : Cfg} {st : St} {v : View} {s : Screen} (hc : cfg.pla
   have hm3 : max k1 1 ≤ cfg.height := by
     have := region_length_pos Fc; omega
   -- the claim in terms of cell rows
-  suffices hsuff : ∃ s' m, Run cfg.height v.printed.length s
+  suffices hsuff : ∃ s' m, Run cfg.height P.length s
         (r.out ++ [TermOp.lf, TermOp.showCursor] ++
           if cfg.transient = true then restoreCursor cfg.blankFix r.st.shape else []) s' ∧
       AtBlank s' (Pc ++ (if cfg.transient then (if Fc.isEmpty && !cfg.blankFix then [[]] else []) else region Fc)) m ∧
       m ≤ cfg.height ∧ s'.visible = true by
     obtain ⟨s', m, h1, h2, h3, h4⟩ := hsuff
-    refine ⟨s', m, h1, ?_, h3, h4, hfinS, hfin.1, hfin.2⟩
-    have : (v.printed ++ leftBy cfg (shown cfg r.st)).map (cells cfg.cw) =
+    refine ⟨s', m, h1, ?_, h3, h4⟩
+    have : (P ++ leftBy cfg (shown cfg r.st)).map (cells cfg.cw) =
         Pc ++ (if cfg.transient then (if Fc.isEmpty && !cfg.blankFix then [[]] else []) else region Fc) := by
       rw [List.map_append, hPc]
       congr 1
@@ -211,14 +239,14 @@ theorem stop_landing {cfg : Cfg} {st : St} {v : View} {s : Screen} (hc : cfg.pla
       have hb4 : AtBlank s4 (Pc ++ region Fc) (max k1 1) :=
         atBlank_of_eq hb3 (by rw [hs4]; rfl) (by rw [hs4]; rfl) (by rw [hs4]; rfl)
       have hvis4 : s4.visible = true := by rw [hs4]; exact hvis3
-      have hrun4 : Run cfg.height v.printed.length s (r.out ++ [.lf, .showCursor] ++ [.cr]) s4 := by
+      have hrun4 : Run cfg.height P.length s (r.out ++ [.lf, .showCursor] ++ [.cr]) s4 := by
         refine Run.append hrun2 ?_
         rw [hs4]; refine Run.one ?_
-        show v.printed.length ≤ s3.row
+        show P.length ≤ s3.row
         rw [hb3.row]; simp; omega
       -- going up over the rows `G` of the region that `restore_cursor` counts
       have up : ∀ G : List Line, region Fc = G → G.length = restoreCount cfg.blankFix Fc.length →
-          ∃ s' m, Run cfg.height v.printed.length s
+          ∃ s' m, Run cfg.height P.length s
               (r.out ++ [TermOp.lf, TermOp.showCursor] ++ restoreCursor cfg.blankFix (some (w, Fc.length))) s' ∧
             AtBlank s' Pc m ∧ m ≤ cfg.height ∧ s'.visible = true := by
         intro G hG hlen
@@ -254,35 +282,133 @@ theorem stop_landing {cfg : Cfg} {st : St} {v : View} {s : Screen} (hc : cfg.pla
     simp only [htr', Bool.false_eq_true, if_false, List.append_nil]
     exact ⟨s3, max k1 1, hrun2, hb3, hm3, hvis3⟩
 
+
+/-- Where an effective `stop` of the repaired code lands: what was pending in the redirected streams has
+been printed above the display, the last frame drawn, and the cursor is on a blank zone right below the
+finished output — printed lines, pending lines, what the display leaves (`leftBy`) — all within the screen. -/
+theorem stop_landing {cfg : Cfg} {st : St} {v : View} {s : Screen} (hc : cfg.plain = true) (hH : 1 ≤ cfg.height)
+    (hflush : cfg.flushFix = true) (g : Good cfg st v s) (hst : st.started = true) (hbuf : BufOk st)
+    (hff : flushFits cfg st = true)
+    (hfit : cfg.transient = true → restoreCount cfg.blankFix (stopFrame cfg st).length + 1 ≤ cfg.height) :
+    ∃ s' m, Run cfg.height v.printed.length s (doStop cfg noFault st).out s' ∧
+      AtBlank s' ((v.printed ++ pendLines cfg st ++ leftBy cfg (stopFrame cfg st)).map (cells cfg.cw)) m ∧
+      m ≤ cfg.height ∧ s'.visible = true ∧
+      (doStop cfg noFault st).st.started = false ∧ (doStop cfg noFault st).st.hooks = 0 ∧
+      (cfg.resetShape = true → (doStop cfg noFault st).st.shape = none) ∧
+      (doStop cfg noFault st).st.bufOut = [] ∧ (doStop cfg noFault st).st.bufErr = [] := by
+  have hh : st.hooks > 0 := by have := g.hooks; rw [hst] at this; simp at this; omega
+  have hh1' : st.hooks = 1 := by have := g.hooks; rw [hst] at this; simpa using this
+  simp only [flushFits, Bool.and_eq_true, Bool.or_eq_true, decide_eq_true_eq] at hff
+  -- the two flushes
+  have hss0 : SS cfg v.printed v.frame ({ st with started := false } : St).shape s := ⟨g.shown, g.shape⟩
+  obtain ⟨e1, h1h, h1s, h1b, h1o, h1p, s1, F1, hrun1, hss1, hv1⟩ :=
+    ss_flush hc hH { st with started := false } false hh (hbuf false) hss0
+      (by intro hne; rcases hff.1 with h | h
+          · have : (pend st false).isEmpty = (pend ({ st with started := false } : St) false).isEmpty := rfl
+            rw [this] at h; rw [h] at hne; cases hne
+          · exact h)
+  generalize hr1 : flushLive cfg noFault { st with started := false } false = r1 at e1 h1h h1s h1b h1o h1p hrun1 hss1 hff
+  have hpend2 : pend r1.st true = pend st true := by
+    have a := h1p true
+    have b : getBuf r1.st true = getBuf st true := h1o
+    simp only [pend, a, b]; rfl
+  obtain ⟨e2, h2h, h2s, h2b, h2o, h2p, s2, F2, hrun2, hss2, hv2⟩ :=
+    ss_flush hc hH r1.st true (by rw [h1h]; exact hh)
+      (by intro hp
+          have hp' : proxied st true = false := by have := h1p true; rw [this] at hp; exact hp
+          have h1o' : getBuf r1.st true = getBuf st true := h1o
+          rw [h1o']; exact hbuf true hp') hss1
+      (by intro hne; rcases hff.2 with h | h
+          · rw [hpend2, h] at hne; cases hne
+          · exact h)
+  generalize hr2 : flushLive cfg noFault r1.st true = r2 at e2 h2h h2s h2b h2o h2p hrun2 hss2
+  -- the last refresh
+  have hhx : (stopSt cfg r2.st).hooks > 0 := by rw [stopSt_hooks, h2h, h1h]; exact hh
+  have hres := (doRefresh_noFault cfg hc (stopSt cfg r2.st)).1 hhx
+  have hframe : stopFrame cfg st = shown cfg (doRefresh cfg noFault (stopSt cfg r2.st)).st := by
+    simp only [stopFrame, stopPre, hflush, if_true, hr1, hr2]
+  have hbx := doRefresh_bufs cfg noFault (stopSt cfg r2.st)
+  have hxo : (stopSt cfg r2.st).bufOut = [] := by
+    have : r2.st.bufOut = [] := by have := h2o; simp [getBuf] at this; rw [this]; simpa [getBuf] using h1b
+    unfold stopSt; cases cfg.kind <;> exact this
+  have hxe : (stopSt cfg r2.st).bufErr = [] := by
+    have : r2.st.bufErr = [] := by simpa [getBuf] using h2b
+    unfold stopSt; cases cfg.kind <;> exact this
+  generalize hrr : doRefresh cfg noFault (stopSt cfg r2.st) = r at hres hframe hbx
+  rw [hframe] at hfit ⊢
+  obtain ⟨s', m, hrun3, hland, hm, hvis⟩ := stop_tail_landing hH (x := stopSt cfg r2.st) (r := r)
+    (by rw [stopSt_shape]; exact hss2) hres hfit
+  -- what `doStop` is
+  have hro : r.st.bufOut = [] := by rw [hbx.1, hxo]
+  have hre : r.st.bufErr = [] := by rw [hbx.2, hxe]
+  have estop : doStop cfg noFault st =
+      { st := resetSt cfg (cleanup r.st),
+        out := r1.out ++ r2.out ++ (r.out ++ [.lf, .showCursor] ++
+          (if cfg.transient then restoreCursor cfg.blankFix r.st.shape else [])) } := by
+    simp only [doStop, hst, hflush, Bool.not_true, Bool.false_eq_true, if_false, if_true, hr1, e1, hr2, e2, hrr]
+    simp only [stopTail, hres.err]
+    rw [dropFlush_clean cfg noFault _ hro hre]
+    simp [finOut_nil cfg (plain_ansi hc), plain_terminal hc, plain_ansi hc, Cfg.quietStop, plain_disable hc, cleanup_shape]
+  rw [estop]
+  have hfs : (resetSt cfg (cleanup r.st)).started = false := by
+    have hc1 : (cleanup r.st).started = r.st.started := by
+      show (disableRedirect r.st).started = _
+      exact disableRedirect_started _
+    have hs : (resetSt cfg (cleanup r.st)).started = (cleanup r.st).started := by unfold resetSt; split <;> rfl
+    rw [hs, hc1, hres.started, stopSt_started]
+  have hfh : (resetSt cfg (cleanup r.st)).hooks = 0 := by
+    have : (cleanup r.st).hooks = 0 := by
+      show r.st.hooks - 1 = 0
+      rw [hres.hooks, stopSt_hooks, h2h, h1h, hh1']
+    unfold resetSt; split <;> exact this
+  have hfb : (resetSt cfg (cleanup r.st)).bufOut = [] ∧ (resetSt cfg (cleanup r.st)).bufErr = [] := by
+    have hc1 : (cleanup r.st).bufOut = [] ∧ (cleanup r.st).bufErr = [] := by
+      have := disableRedirect_bufs r.st
+      exact ⟨by show (disableRedirect r.st).bufOut = []; rw [this.1, hro], by show (disableRedirect r.st).bufErr = []; rw [this.2, hre]⟩
+    unfold resetSt; split <;> exact hc1
+  refine ⟨s', m, ?_, ?_, hm, hvis, hfs, hfh, fun hr => by unfold resetSt; simp [hr], hfb.1, hfb.2⟩
+  · -- the whole run stays at or below the first row under the printed lines
+    have l1 : v.printed.length ≤ (v.printed ++ pend ({ st with started := false } : St) false).length := by simp
+    have l2 : v.printed.length ≤ (v.printed ++ pend ({ st with started := false } : St) false ++ pend r1.st true).length := by simp
+    exact Run.append (Run.append hrun1 (hrun2.weaken l1)) (hrun3.weaken l2)
+  · have : v.printed ++ pendLines cfg st = v.printed ++ pend ({ st with started := false } : St) false ++ pend r1.st true := by
+      simp only [pendLines, hflush, if_true, hpend2, List.append_assoc]; rfl
+    rw [this]; exact hland
+
 /-- An effective `stop` of the repaired code re-establishes the invariant: what the display left is
-finished output, nothing is on display, no shape is recorded — a later `start` begins afresh. -/
+finished output, nothing is on display, no shape is recorded, nothing is pending — a later `start` begins
+afresh. -/
 theorem good_stop_good {cfg : Cfg} {st : St} {v : View} {s : Screen} (hc : cfg.plain = true) (hH : 1 ≤ cfg.height)
-    (hreset : cfg.resetShape = true) (g : Good cfg st v s) (hbo : st.bufOut = []) (hbe : st.bufErr = [])
+    (hflush : cfg.flushFix = true) (hreset : cfg.resetShape = true) (g : Good cfg st v s) (hbuf : BufOk st)
+    (hff : st.started = true → flushFits cfg st = true)
     (hfit : st.started = true → cfg.transient = true →
       restoreCount cfg.blankFix (stopFrame cfg st).length + 1 ≤ cfg.height) :
     ∃ s', Run cfg.height v.printed.length s (doStop cfg noFault st).out s' ∧
-      Good cfg (doStop cfg noFault st).st (viewStopM cfg st v) s' ∧
+      Good cfg (doStop cfg noFault st).st (viewStopM cfg st v) s' ∧ BufOk (doStop cfg noFault st).st ∧
       (st.started = true → s'.visible = true) := by
   by_cases hst : st.started = true
-  · obtain ⟨s', m, hrun, hb, hm, hvis, hns, hnh, hshape⟩ := stop_landing hc hH g hst hbo hbe (hfit hst)
-    refine ⟨s', hrun, ⟨⟨m - 1, ?_, ?_⟩, ?_, ?_, ?_⟩, fun _ => hvis⟩
+  · obtain ⟨s', m, hrun, hb, hm, hvis, hns, hnh, hshape, hbo, hbe⟩ := stop_landing hc hH hflush g hst hbuf (hff hst) (hfit hst)
+    refine ⟨s', hrun, ⟨⟨m - 1, ?_, ?_⟩, ?_, ?_, ?_⟩, ?_, fun _ => hvis⟩
     · simp only [viewStopM, hst, if_true]; exact atBlank_shown_nil hb
     · simp only [viewStopM, hst, if_true, region]; have := hb.pos; simp; omega
     · simp only [viewStopM, hst, if_true]; rw [hshape hreset]; rfl
     · rw [hns, hnh]; rfl
     · intro _; simp only [viewStopM, hst, if_true]; exact ⟨trivial, hshape hreset⟩
+    · intro e _; cases e <;> simp [getBuf, hbo, hbe]
   · have hst' : st.started = false := by simpa using hst
     have e : doStop cfg noFault st = { st := st } := by simp [doStop, hst']
     rw [e]
-    refine ⟨s, Run.nil _ _ _, ?_, fun h => by rw [hst'] at h; cases h⟩
+    refine ⟨s, Run.nil _ _ _, ?_, hbuf, fun h => by rw [hst'] at h; cases h⟩
     simp only [viewStopM, hst', Bool.false_eq_true, if_false]
     exact g
 
-/-- The final stop of a single-session history: the screen shows the printed lines, then the last frame
-(nothing if transient), then only blank rows; the cursor never went above the first row under the printed
-lines and is visible.  (Rows are rows of cells: `cells cfg.cw` of every line.) -/
-theorem good_stop {cfg : Cfg} {st : St} {v : View} {s : Screen} (hc : cfg.plain = true) (hH : 1 ≤ cfg.height) (g : Good cfg st v s)
-    (hbo : st.bufOut = []) (hbe : st.bufErr = [])
+/-- The final stop of a single-session history: the screen shows the printed lines (pending stream text
+completed above the display included), then the last frame (nothing if transient), then only blank
+rows; the cursor never went above the first row under the printed lines and is visible.  (Rows are rows
+of cells: `cells cfg.cw` of every line.) -/
+theorem good_stop {cfg : Cfg} {st : St} {v : View} {s : Screen} (hc : cfg.plain = true) (hH : 1 ≤ cfg.height)
+    (hflush : cfg.flushFix = true) (g : Good cfg st v s) (hbuf : BufOk st)
+    (hff : st.started = true → flushFits cfg st = true)
     (hfit : st.started = true → cfg.transient = true →
       restoreCount cfg.blankFix (stopFrame cfg st).length + 1 ≤ cfg.height) :
     ∃ s', Run cfg.height v.printed.length s (doStop cfg noFault st).out s' ∧
@@ -290,7 +416,7 @@ theorem good_stop {cfg : Cfg} {st : St} {v : View} {s : Screen} (hc : cfg.plain 
       (st.started = true → s'.visible = true) := by
   have hcnil : cells cfg.cw [] = [] := rfl
   by_cases hst : st.started = true
-  · obtain ⟨s', m, hrun, hb, _, hvis, _⟩ := stop_landing hc hH g hst hbo hbe (hfit hst)
+  · obtain ⟨s', m, hrun, hb, _, hvis, _⟩ := stop_landing hc hH hflush g hst hbuf (hff hst) (hfit hst)
     refine ⟨s', hrun, ?_, fun _ => hvis⟩
     simp only [viewStop, hst, if_true]
     rw [hb.rows]
@@ -312,5 +438,117 @@ theorem good_stop {cfg : Cfg} {st : St} {v : View} {s : Screen} (hc : cfg.plain 
     simp only [viewStop, hst', Bool.false_eq_true, if_false]
     obtain ⟨k', hk'⟩ := shown_rows hs
     exact ⟨k', by rw [hk', List.map_append]⟩
+
+/-! ### nothing is pending in a stream that is not redirected: preserved by every operation -/
+
+theorem BufOk.of_eq {a b : St} (h : BufOk b) (hp : ∀ e, proxied a e = proxied b e) (hg : ∀ e, getBuf a e = getBuf b e) :
+    BufOk a := by
+  intro e he; rw [hg e]; exact h e (by rw [← hp e]; exact he)
+
+theorem BufOk.of_io {a b : St} (h : BufOk b) (hc : CtlEq a b) (hb : a.bufOut = b.bufOut ∧ a.bufErr = b.bufErr) : BufOk a :=
+  h.of_eq (proxied_of_ctlEq hc) (getBuf_of_bufs hb)
+
+theorem bufOk_doPrint {cfg : Cfg} {fails : Nat → Bool} {st : St} (U : List Line) (h : BufOk st) :
+    BufOk (doPrint cfg fails st U).st :=
+  h.of_io (doPrint_ctl cfg fails st U).1 (doPrint_bufs cfg fails st U)
+
+theorem bufOk_doRefresh {cfg : Cfg} {fails : Nat → Bool} {st : St} (h : BufOk st) :
+    BufOk (doRefresh cfg fails st).st :=
+  h.of_io (doRefresh_ctl cfg fails st).1 (doRefresh_bufs cfg fails st)
+
+theorem bufOk_enableRedirect {cfg : Cfg} {st : St} (h : BufOk st) :
+    BufOk { enableRedirect cfg st with started := true, hooks := st.hooks + 1 } := by
+  have ho := h false
+  have he := h true
+  simp only [proxied, getBuf, Bool.false_eq_true, if_false, if_true] at ho he
+  intro e
+  cases ht : cfg.terminal <;> cases hro : cfg.redirectStdout <;> cases hre : cfg.redirectStderr <;> cases e <;>
+    simp [enableRedirect, proxied, getBuf, ht, hro, hre] <;> first | exact ho | exact he | (intro h'; first | exact ho (by simpa using h') | exact he (by simpa using h'))
+
+/-- Every operation but `stop` that raises nothing keeps `BufOk`. -/
+theorem bufOk_step (cfg : Cfg) (fails : Nat → Bool) (st : St) (op : Op) (hne : op ≠ .stop)
+    (herr : (step cfg fails st op).err = none) (h : BufOk st) : BufOk (step cfg fails st op).st := by
+  cases op with
+  | stop => exact absurd rfl hne
+  | start =>
+    by_cases hst : st.started = true
+    · have e : step cfg fails st .start = { st := st } := by simp [step, doStart, hst]
+      rw [e]; exact h
+    · have hst' : st.started = false := by simpa using hst
+      have h1 := bufOk_enableRedirect (cfg := cfg) h
+      cases hk : cfg.kind
+      · have e : step cfg fails st .start = { st := { enableRedirect cfg st with started := true, hooks := st.hooks + 1 }, out := hideOp cfg } := by
+          simp [step, doStart, hst', hk]
+        rw [e]; exact h1
+      · have h2 := bufOk_doRefresh (cfg := cfg) (fails := fails) h1
+        simp only [step, doStart, hst', hk, Bool.false_eq_true, if_false] at herr ⊢
+        generalize doRefresh cfg fails { enableRedirect cfg st with started := true, hooks := st.hooks + 1 } = r at h2 herr ⊢
+        cases hre : r.err with
+        | none => exact h2
+        | some e0 =>
+          rw [hre] at herr
+          simp only at herr
+          split at herr <;> simp at herr
+      · have e : step cfg fails st .start = { st := { enableRedirect cfg st with started := true, hooks := st.hooks + 1 }, out := hideOp cfg } := by
+          simp [step, doStart, hst', hk]
+        rw [e]; exact h1
+  | print ls => exact bufOk_doPrint ls h
+  | printBare =>
+    simp only [step]
+    split
+    · exact h
+    · exact bufOk_doPrint _ h
+  | refresh => exact bufOk_doRefresh h
+  | update f rf =>
+    simp only [step]
+    split
+    · split
+      · exact bufOk_doRefresh (st := { st with renderable := f }) h
+      · exact h
+    · exact bufOk_doRefresh (st := { st with renderable := statusFrame cfg.cw f }) h
+    · exact h
+  | addTask desc vs tot =>
+    simp only [step]
+    have h2 := bufOk_doRefresh (cfg := cfg) (fails := fails) (st := addTaskSt st desc vs tot) h
+    split
+    · exact h2
+    · exact h2
+  | updateTask id ed rf =>
+    simp only [step]
+    split
+    · exact h
+    · split
+      · rename_i t _ _
+        exact bufOk_doRefresh (st := { st with tasks := replaceTask st.tasks (ed.apply t) }) h
+      · exact h
+  | removeTask id =>
+    simp only [step]
+    split
+    · exact h
+    · exact h
+  | resize w => exact h
+  | write err lines tail =>
+    simp only [step, doWrite]
+    split
+    · exact h
+    · rename_i hp
+      have hp' : proxied st err = true := by simpa using hp
+      split
+      · intro e he
+        by_cases hee : e = err
+        · subst hee; rw [proxied_setBuf] at he; rw [hp'] at he; cases he
+        · have : e = !err := by cases e <;> cases err <;> simp_all
+          subst this
+          rw [proxied_setBuf] at he
+          rw [getBuf_setBuf_other]; exact h _ he
+      · rename_i l rest
+        refine bufOk_doPrint _ ?_
+        intro e he
+        by_cases hee : e = err
+        · subst hee; rw [proxied_setBuf] at he; rw [hp'] at he; cases he
+        · have : e = !err := by cases e <;> cases err <;> simp_all
+          subst this
+          rw [proxied_setBuf] at he
+          rw [getBuf_setBuf_other]; exact h _ he
 
 end RichModel.Live
